@@ -68,6 +68,8 @@ def run(ctx, rep):
     rep.guarded("R04-TAGS", lambda: r_tags(sh, rep))
     rep.rule("R04-TAGSITE", "the constructor-tag ranges are spelled out only in the functions R04-TAGS evaluates", floor=3)
     rep.guarded("R04-TAGSITE", lambda: r_tagsites(sh, rep, "R04-TAGSITE"))
+    rep.rule("R04-BIGINTSITE", "pallas' BigUInt/BigNInt representation is taken apart only in from_pallas_bigint / to_pallas_bigint", floor=2)
+    rep.guarded("R04-BIGINTSITE", lambda: r_bigintsites(sh, rep, "R04-BIGINTSITE"))
     rep.guarded("R04-GATE", lambda: r_gate(sh, rep))
 
 
@@ -474,3 +476,35 @@ def r_wrap(sh, rep, t):
     then = ifs[0]["then"]
     cmp_ops = {n["op"] for n in walk(then) if n["k"] == "Binary" and n["op"] in ("<", ">", "<=", ">=")}
     rep.check({"<", ">"} <= cmp_ops or {"<=", ">="} <= cmp_ops or len(cmp_ops) >= 2, "R04-WRAP", "ConsByteString#range-check-two-sided", sh.loc(RT, then), "the range-checked branch must reject both n < 0 and n > 255 (found comparisons %s)" % sorted(cmp_ops))
+
+
+# ---------------------------------------------------------------------------------------------------------
+# big-integer representation sites: pallas' BigUInt / BigNInt encoding is taken apart only by the two converters
+# ---------------------------------------------------------------------------------------------------------
+BIGINT_OWNERS = {"from_pallas_bigint", "to_pallas_bigint"}
+
+
+def r_bigintsites(sh, rep, rid):
+    """PlutusData integers beyond 64 bits are stored as magnitudes, negative ones as the magnitude of -1-n. Exactly two
+    functions know that (machine/value.rs: from_pallas_bigint / to_pallas_bigint); every other place converts through them.
+    A reducer, size measure or printer that matches on BigUInt / BigNInt itself re-implements the convention — the place
+    where `-magnitude` is written for `-1-magnitude` and only integers below -2^64 show it."""
+    found = {}
+    for rel in sh.files():
+        if not rel.startswith("crates/") or "/tests/" in rel or rel.endswith("tests.rs"):
+            continue
+        fj = sh.file(rel)
+        for q, f in all_fns(fj):
+            if "body" not in f:
+                continue
+            hits = [n for n in walk(f["body"]) if n["k"] in ("PPath", "PTupleStruct", "PStruct", "Path", "Call") and re.search(r"(^|::)BigInt::(BigUInt|BigNInt)$", (n.get("p") or (n["f"].get("p") if n["k"] == "Call" and n["f"]["k"] == "Path" else "") or ""))]
+            if hits:
+                found[(rel, q)] = hits
+    seen = set()
+    for (rel, q), hits in sorted(found.items()):
+        owner = q.split("::")[-1] in BIGINT_OWNERS and rel == "crates/uplc/src/machine/value.rs"
+        if owner:
+            seen.add(q.split("::")[-1])
+        rep.check(owner, rid, "bigint-repr-site#%s#%s" % (rel.split("/")[-1], q), sh.loc(rel, hits[0]), "%s in %s takes pallas' BigUInt / BigNInt representation apart itself instead of going through from_pallas_bigint / to_pallas_bigint: a private copy of the `-1 - magnitude` convention, wrong values (or sizes) only for integers beyond 64 bits" % (q, rel), why_ok="owner of the convention", sample={"sites": len(hits)})
+    if seen != BIGINT_OWNERS:
+        rep.bad(rid, "bigint-repr-site#owners", "crates/uplc/src/machine/value.rs", "expected from_pallas_bigint and to_pallas_bigint to match on BigUInt / BigNInt (found %s): the detector may be blind (anchor)" % sorted(seen))
